@@ -840,7 +840,9 @@ func (m *Dense) RankOne(a Matrix, alpha float64, x, y Vector) {
 func (m *Dense) Outer(alpha float64, x, y Vector) {
 	r, c := x.Len(), y.Len()
 
-	m.reuseAsZeroed(r, c)
+	// The receiver is zeroed below, after the overlap checks, so that a
+	// rejected call leaves the operands untouched.
+	m.reuseAsNonZeroed(r, c)
 
 	var xmat, ymat blas64.Vector
 	fast := true
